@@ -263,3 +263,59 @@ Example C05_run_end_to_end :
                       (Some ([inr (EColumn "b")], None)) [(inr (EColumn "s"), true)] None None false))
   = Some (inl [[VStr [121%Z]; VInt 5]; [VStr [120%Z]; VInt 3]]).
 Proof. vm_compute. reflexivity. Qed.
+
+(* ================================================================== tie by translation (harness/PYMINI.md, DESIGN 10.6)
+   The PyMini terms of Gen/SrcLookup.v and Gen/SrcCompiler.v are regenerated on every run from the source of the imported
+   beanquery.types / beanquery.compiler (harness/vf/src_compiler.py); the theorems below say that interpreting them
+   computes the functions of Model/Compile.v the theorems above are stated over.  Primitive semantics and encodings:
+   Model/PrimsCompiler.v (compiled nodes are references into a heap [tbl]; datatypes are their snapshot names). *)
+From Verif Require Import Model.PyMini Model.PrimsApi Model.PrimsCompiler.
+From Verif Require Gen.SrcLookup Proofs.SrcLookup.
+
+(* types.function_lookup: for EVERY registry, name and operand list the translated search (product of the operands'
+   bases outermost, overloads in registry order innermost, AnyType.__eq__ on the declared types) returns exactly the
+   overload - class and position - Compile.function_lookup returns, or None.  [_bases] is an opaque callable here,
+   assumed to return Compile.bases_of; C05_source_bases / _bases_table below discharge that for the live classes. *)
+Theorem C05_source_function_lookup :
+  forall (call_ref : nat -> list pv -> pv) (tbl : nat -> Compile.cnode) (kids : nat -> list nat)
+         (mro : string -> list string) (msg : string -> list pv -> pv)
+         (kb : nat) (reg : list (string * list Compile.overload)) (name : string) (operands : list nat),
+  ref_of SrcLookup.refs "beanquery.types._bases" = Some kb ->
+  (forall t, call_ref kb [PStr t] = PTuple (map PStr (Compile.bases_of t))) ->
+  call_function call_ref (prim_compiler tbl kids mro msg) SrcLookup.types_function_lookup
+    [enc_registry reg; PStr name; PList (map nref operands)] =
+  PyMini.Ok (Proofs.SrcLookup.enc_found
+               (Compile.function_lookup reg name (map (fun i => Compile.dtype (tbl i)) operands))).
+Proof. exact Proofs.SrcLookup.function_lookup_src. Qed.
+Print Assumptions C05_source_function_lookup.
+
+(* types._bases on a datatype whose method resolution order is [mro t]: (object,) for NoneType; the order without its
+   last element when that is `object` and the order has more than one element; else the order *)
+Theorem C05_source_bases :
+  forall (call_ref : nat -> list pv -> pv) (tbl : nat -> Compile.cnode) (kids : nat -> list nat)
+         (mro : string -> list string) (msg : string -> list pv -> pv) (t : string),
+  call_function call_ref (prim_compiler tbl kids mro msg) SrcLookup.types_bases [PStr t] =
+  PyMini.Ok (PTuple (map PStr (Proofs.SrcLookup.bases_from_mro t (mro t)))).
+Proof. exact Proofs.SrcLookup.bases_src. Qed.
+Print Assumptions C05_source_bases.
+
+(* ... which, on the method resolution orders of the live classes (emitted with the generated terms), is the type table
+   of the snapshot; every datatype of the snapshot is in that table *)
+Theorem C05_source_bases_table :
+  (forall n m, In (n, m) SrcLookup.type_mros -> Proofs.SrcLookup.bases_from_mro n m = Compile.bases_of n)
+  /\ forallb (fun r => match r with (n, _, _, _, _) => existsb (fun p => String.eqb (fst p) n) SrcLookup.type_mros end)
+             RegistrySnapshot.types = true.
+Proof. exact (conj Proofs.SrcLookup.bases_table Proofs.SrcLookup.mro_table_covers_snapshot). Qed.
+Print Assumptions C05_source_bases_table.
+
+(* the hypothesis about the opaque callable is satisfiable *)
+Example C05_source_lookup_hypotheses_satisfiable :
+  exists call_ref : nat -> list pv -> pv,
+    forall t, call_ref 0%nat [PStr t] = PTuple (map PStr (Compile.bases_of t)).
+Proof.
+  exists (fun _ args => match args with
+                        | [PV (VStr s)] => PTuple (map PStr (Compile.bases_of (unzs s)))
+                        | _ => PNone
+                        end).
+  intros t. cbn. now rewrite Proofs.SrcLookup.unzs_zs.
+Qed.
